@@ -148,3 +148,24 @@ Definition delimit (tt : ttype) (body : ustr) : ustr :=
   | TLit => 34 :: body ++ [34]
   | _ => body
   end.
+
+(* UTF-8 decoding (lenient about continuation bytes; used for the round-trip statement only) *)
+Fixpoint utf8_decode (s : list N) : option ustr :=
+  match s with
+  | [] => Some []
+  | b1 :: r1 =>
+      if b1 <? 128 then option_map (cons b1) (utf8_decode r1)
+      else if b1 <? 224 then
+        match r1 with b2 :: r2 => option_map (cons ((b1 - 192) * 64 + (b2 - 128))) (utf8_decode r2) | _ => None end
+      else if b1 <? 240 then
+        match r1 with
+        | b2 :: b3 :: r3 => option_map (cons ((b1 - 224) * 4096 + (b2 - 128) * 64 + (b3 - 128))) (utf8_decode r3)
+        | _ => None
+        end
+      else
+        match r1 with
+        | b2 :: b3 :: b4 :: r4 =>
+            option_map (cons ((b1 - 240) * 262144 + (b2 - 128) * 4096 + (b3 - 128) * 64 + (b4 - 128))) (utf8_decode r4)
+        | _ => None
+        end
+  end.
